@@ -74,6 +74,9 @@ class Gen:
         ctx["li"] = [r.randint(-3, 9) for _ in range(r.choice([0, 1, 2, 3, 5]))]
         ctx["ls"] = [self.rand_str(3) for _ in range(r.choice([0, 1, 2, 4]))]
         ctx["d"] = {k: r.randint(0, 5) for k in r.sample(["k", "a", "zz", "m"], r.randint(0, 4))}
+        # a plain dict whose keys are spelled like dict attributes / methods: `dm.items` is the METHOD (getattr prefers the attribute),
+        # `dm['items']` the entry (getitem prefers the item); the other keys resolve the same either way
+        ctx["dm"] = {k: r.choice([3, "v", ["x"], r.randint(0, 9)]) for k in r.sample(["items", "values", "keys", "get", "update", "copy", "pop", "width", "a"], r.randint(2, 6))}
         ctx["n0"] = None
         ctx["acc"] = []          # only ever appended to through {% do %}; never iterated (no unbounded loops)
         ctx["obj"] = {"a": r.randint(0, 3), "b": self.rand_str(3), "l": [1, 2][: r.randint(0, 2)]}
@@ -659,6 +662,17 @@ class Gen:
         if k == 27:
             f("cond-expr")
             return self.var(f"{self.e_any(sc, 1)} if {self.e_bool(sc, 2)} else {self.e_any(sc, 1)}")
+        if k == 28 and r.random() < 0.5:
+            # attribute vs item resolution (Environment.getattr / getitem) on dicts whose keys collide with dict methods,
+            # on lists, strings and nested data
+            f("attr-vs-item")
+            key = r.choice(["items", "values", "keys", "get", "update", "copy", "pop", "width", "a", "nope"])
+            return self.var(r.choice([
+                f"dm.{key} is callable", f"dm['{key}'] is defined", f"dm['{key}']|default('none')|string", f"dm.{key} is defined",
+                "dm.items()|map('first')|sort|join(',')", "dm.keys()|sort|join(',')", "dm.values()|map('string')|sort|join(',')", f"dm.get('{key}', 'dflt')|string",
+                "dm|dictsort|map('first')|join(',')", "dm|length", f"'{key}' in dm", "dm.copy()|length", f"(dm.{key}|string)[:9] if dm.{key} is not callable else 'method'",
+                "{'items': 1, 'a': 2}.items()|list|length", "{'values': 5}['values']", "{'keys': 5}.keys is callable", "{'a': {'items': 7}}.a['items']",
+                "li.0 is defined", "li[0] is defined", "s0.upper()|length", "obj.l.0|default('e')", "obj['l']|length", "d.items()|sort|first|default(('z', 0))|first"]))
         if k == 28:
             f("nested-data")
             return self.var(r.choice(["obj.l|join(',')", "obj|dictsort", "d|dictsort", "li", "ls", "d.items()|list|sort", "{'x': [1, 2]}.x[1]", "[1, [2, 3]][1][0]", "(1, 2)", "li|batch(2)|list", "li|slice(2)|list",
